@@ -243,6 +243,92 @@ fn glob_replay(case: &Value) -> Vec<(String, String)> {
     glob_violation(mode, pattern, text, exp, &got).into_iter().collect()
 }
 
+/// A2: characters that mean something in a regular expression are ordinary characters of a glob: every
+/// (pattern, text) over small alphabets of such characters, through the same four entry points
+fn part_a2(report: &Report) {
+    const P: [&str; 8] = ["a", ".", "(", "[", "\\", "+", "*", "?"];
+    const T: [&str; 6] = ["a", ".", "(", "[", "\\", "b"];
+    let mut patterns = vec![];
+    engine::for_all_strings(&P, 3, &mut |s| patterns.push(s.to_owned()));
+    let mut texts = vec![];
+    engine::for_all_strings(&T, 3, &mut |s| texts.push(s.to_owned()));
+    patterns.retain(|p| p.chars().any(|c| ".([\\+".contains(c)));
+    par_shards(report, patterns.len(), |pi, t| {
+        let pattern = &patterns[pi];
+        for text in &texts {
+            t.states += 1;
+            t.nontrivial += 1;
+            t.transitions += 4;
+            let case = glob_case_json(Mode::Word, pattern, text);
+            for mode in MODES {
+                let mut c = case.clone();
+                c["mode"] = json!(mode.name());
+                for (sig, detail) in glob_replay(&c) {
+                    report.violation(&sig.replacen("glob/", "glob-metachar/", 1), || detail, || c.clone());
+                }
+            }
+        }
+    });
+    report.set("glob_metachar", json!({"pattern_alphabet": P, "text_alphabet": T, "patterns": patterns.len(), "texts": texts.len()}));
+}
+
+/// `event_match` on the key `room_id` compares the pattern with the room the event is in: a whole-value,
+/// case-insensitive glob like every other key
+fn room_id_eval(room: &str, pattern: &str, t: &mut Tally) -> Vec<(String, String)> {
+    let (ctx, _) = base_ctx(room, 2, "dn");
+    let event = json!({"type": "m.room.message", "sender": "@alice:x", "room_id": room, "content": {"body": "x"}});
+    let cond = PushCondition::EventMatch { key: "room_id".into(), pattern: pattern.into() };
+    let flat = FlattenedJson::from_raw(&raw_of(&event));
+    t.transitions += 2;
+    let got = catch(|| cond.applies(&flat, &ctx));
+    if let Some(v) = wire_agrees("cond/event_match-room_id", &cond, &flat, &ctx, &got) {
+        return vec![v];
+    }
+    let exp = pm::ref_match_whole(pattern, room);
+    match (exp, got) {
+        (_, Err(p)) => vec![(panic_sig(&p, "cond/event_match-room_id"), p.text.clone())],
+        (Tri::Must(e), Ok(g)) => {
+            t.outcome("cond/event_match-room_id", if g { "holds" } else { "does-not-hold" });
+            if e != g {
+                vec![(
+                    format!("cond/event_match-room_id/{}/{}", pm::pattern_class(pattern), if e { "should-hold" } else { "should-not-hold" }),
+                    format!("room {room:?} pattern {pattern:?}: reference {e}, ruma {g}"),
+                )]
+            } else {
+                vec![]
+            }
+        }
+        _ => vec![],
+    }
+}
+
+fn part_b6(report: &Report) {
+    let mut t = Tally::new();
+    for room in ["!r1:x", "!Ab:Host.example"] {
+        let mut patterns: Vec<String> = vec![room.to_owned(), room.to_uppercase(), room.to_lowercase(), "*".into(), "!*".into(), "*x".into(), "?".into()];
+        // every single character replaced by `?`, every prefix followed by `*`, one character dropped
+        let chars: Vec<char> = room.chars().collect();
+        for i in 0..chars.len() {
+            let mut q = chars.clone();
+            q[i] = '?';
+            patterns.push(q.iter().collect());
+            patterns.push(format!("{}*", chars[..i].iter().collect::<String>()));
+            let mut d = chars.clone();
+            d.remove(i);
+            patterns.push(d.iter().collect());
+        }
+        for p in &patterns {
+            t.states += 1;
+            t.nontrivial += 1;
+            for (sig, detail) in room_id_eval(room, p, &mut t) {
+                report.violation(&sig, || detail, || json!({"part": "room-id-match", "room": room, "pattern": p}));
+            }
+        }
+    }
+    report.merge(t);
+    report.require_outcomes("cond/event_match-room_id", 2);
+}
+
 struct GlobBounds {
     /// (max pattern length, max text length) rectangles for patterns with a wildcard (ruma compiles a
     /// regex on every such call, ~100 µs) and for literal patterns; the union is enumerated
@@ -1597,6 +1683,7 @@ fn replay(case: &Value) -> Vec<(String, String)> {
             }
         }
         "select" => select_replay(case),
+        "room-id-match" => room_id_eval(case["room"].as_str().unwrap_or(""), case["pattern"].as_str().unwrap_or(""), &mut t),
         "event-match-non-string" => {
             nonstring_eval(&case["event"], case["key"].as_str().unwrap_or(""), case["pattern"].as_str().unwrap_or(""), &mut t)
         }
@@ -1627,7 +1714,9 @@ fn main() {
          event values x 3 property names; RoomMemberCount 5 operators x counts 0..3 x thresholds 0..3 x struct/wire \
          spellings; SenderNotificationPermission 2 senders x 5 users entries x 3 users_default x 3 notifications.room \
          (+ 10 cases without power levels / other key / missing or invalid sender, not compared); EventMatch with 11 patterns \
-         (`*`, empty, `?`, ...) on a property that is absent / null / bool / number / array / object (never holds). C: every ruleset with 0..2 ordered rules per kind from a per-kind menu \
+         (`*`, empty, `?`, ...) on a property that is absent / null / bool / number / array / object (never holds); EventMatch on `room_id` with exact, \
+         case-changed, `?`-substituted, prefix-`*` and shortened patterns of two room IDs; A2: every pattern <= 3 over {{a . ( [ \\ + * ?}} containing a regex \
+         metacharacter x every text <= 3 over {{a . ( [ \\ b}} through the four glob entry points. C: every ruleset with 0..2 ordered rules per kind from a per-kind menu \
          (sizes {:?}; always-true, always-false, body-dependent, member-count + property conditions; literal content \
          patterns; room / sender ids) x enabled flags x 6 events x 2 contexts through get_match (and get_actions in the \
          first context) vs first enabled rule in kind order whose reference conditions hold; thorough tier also the \
@@ -1656,6 +1745,8 @@ fn main() {
     timed("B3-member-count", &|| part_b3(&report));
     timed("B4-sender-permission", &|| part_b4(&report));
     timed("B5-event-match-non-string", &|| part_b5(&report));
+    timed("B6-event-match-room-id", &|| part_b6(&report));
+    timed("A2-glob-metachar", &|| part_a2(&report));
     timed("C-rule-selection", &|| part_c(&report, args.tier));
     timed("D-hostile-events", &|| part_d(&report));
     report.set("part_wall_s", Value::Object(walls));
